@@ -285,6 +285,7 @@ def stepOp (a : TAcc) (line : String) : TAcc :=
 structure DS where
   ops : Array String := #[]
   tl : Array String := #[]
+  crash : String := ""
 
 def finish (d : DS) : List String :=
   let a : TAcc := d.ops.foldl stepOp ({ tl := d.tl.toList } : TAcc)
@@ -293,7 +294,7 @@ def finish (d : DS) : List String :=
     (if a.h.bodies.size > 0 then ["ran"] else []) ++ (if a.h.cbs.size > 0 then ["cb"] else []) ++
     (if a.h.cleanup.isSome && a.h.bodies.size < a.h.tasks.size then ["not-all-ran"] else [])
   match a.err with
-  | some e => ["B " ++ " ".intercalate (tags0.eraseDups), "reject " ++ e]
+  | some e => ["B " ++ " ".intercalate (tags0.eraseDups), "reject " ++ e ++ (if d.crash.isEmpty then "" else " — " ++ d.crash)]
   | none =>
     match a.tl with
     | l :: _ => ["reject unexpected extra implementation output: [" ++ l ++ "]"]
@@ -320,7 +321,7 @@ def stepLine (d : DS) (line : String) : DS × List String :=
   else if t.startsWith "T " then
     let l := (t.drop 2).toString
     -- `CRASH …` lines are appended by the framework, not by the implementation
-    if l.startsWith "CRASH" then (d, []) else ({ d with tl := d.tl.push l }, [])
+    if l.startsWith "CRASH" then ({ d with crash := l }, []) else ({ d with tl := d.tl.push l }, [])
   else ({ d with ops := d.ops.push t }, [])
 
 def main : IO Unit := runDriver ({} : DS) stepLine
